@@ -28,6 +28,27 @@ Section DocRead.
   Definition enum_members_all (cls : pystr) (members : list (pystr * pyval)) : list (pystr * pyval) :=
     match find_enum ens cls with Some d => en_members d | None => members end.
 
+  (* Multi-field wrappers.  The value of a wrapper field is a value of one of its alternatives, so the candidate
+     readings of a document are its readings under each alternative g that g itself accepts -- for NotField also
+     the document as itself (a value that matches no alternative stands for itself).  Duplicates (exact equality)
+     are one reading.  The document is read as the first candidate the wrapper as a whole accepts (AnyOf: any
+     candidate; OneOf: exactly one alternative matches it; AllOf: all do; NotField: none does).  When there are two
+     or more DISTINCT candidates the documentation does not say which is meant: [ambiguous] below, and the
+     checker then declines to judge the document. *)
+  Definition option_readings (lft : field -> pyval -> option pyval) (fs : list field) (j : pyval) : list pyval :=
+    flat_map (fun g => match lft g j with
+                       | Some w => if is_ok (vset re_match e g w) then [w] else []
+                       | None => []
+                       end) fs.
+
+  Fixpoint dedup_readings (l : list pyval) : list pyval :=
+    match l with
+    | [] => []
+    | x :: t => x :: filter (fun y => negb (pyval_eqb x y)) (dedup_readings t)
+    end.
+
+  Definition pick_reading (accepts : pyval -> bool) (l : list pyval) : option pyval := find accepts l.
+
   Section WithRec.
     (* the instance a nested object stands for, if any *)
     Variable rec : pystr -> pyval -> option pyval.
@@ -116,19 +137,47 @@ Section DocRead.
               end
           | _ => None
           end
-      | FAnyOf fs =>
-          (* the first option the document is a JSON form of, and whose value that option accepts *)
-          (fix go (gs : list field) : option pyval :=
-             match gs with
-             | [] => None
-             | g :: t =>
-                 match lift g j with
-                 | Some w => if is_ok (vset re_match e g w) then Some w else go t
-                 | None => go t
-                 end
-             end) fs
-      | FAllOf _ | FOneOf _ | FNot _ => Some j
+      | FAnyOf fs => pick_reading (fun _ => true) (dedup_readings (option_readings lift fs j))
+      | FOneOf fs | FAllOf fs =>
+          pick_reading (fun w => is_ok (vset re_match e f w)) (dedup_readings (option_readings lift fs j))
+      | FNot fs =>
+          pick_reading (fun w => is_ok (vset re_match e f w)) (dedup_readings (j :: option_readings lift fs j))
       | FClassRef c => rec c j          (* an object, or the compact form of a single-field wrapper *)
+      end.
+
+    (* [ambiguous f j]: somewhere in document j, read for declaration f, a multi-field wrapper has two or more
+       distinct candidate readings (an over-approximation: alternatives that are not chosen are searched too) *)
+    Variable rec_amb : pystr -> pyval -> bool.
+
+    Fixpoint ambiguous (f : field) (j : pyval) {struct f} : bool :=
+      let elems (g : field) (l : list pyval) := existsb (ambiguous g) l in
+      let positional (items : list field) (l : list pyval) :=
+          (fix pos (fs : list field) (vs : list pyval) {struct fs} : bool :=
+             match fs, vs with
+             | g :: fs', x :: vs' => ambiguous g x || pos fs' vs'
+             | _, _ => false
+             end) items l in
+      let multi (is_not : bool) (fs : list field) :=
+          (2 <=? length (dedup_readings ((if is_not then [j] else []) ++ option_readings lift fs j)))%nat
+          || (fix any (gs : list field) : bool :=
+                match gs with
+                | [] => false
+                | g :: t => ambiguous g j || any t
+                end) fs in
+      match f with
+      | FSeqEach _ g _ _ | FSet _ (Some g) _ | FTuple [g] _ =>
+          match j with PList l => elems g l | _ => false end
+      | FSeqPos _ items _ _ _ | FTuple items _ =>
+          match j with PList l => positional items l | _ => false end
+      | FMapKV kf vf _ =>
+          match j with
+          | PDict kv => existsb (fun p => ambiguous kf (fst p) || ambiguous vf (snd p)) kv
+          | _ => false
+          end
+      | FAnyOf fs | FOneOf fs | FAllOf fs => multi false fs
+      | FNot fs => multi true fs
+      | FClassRef c => rec_amb c j
+      | _ => false
       end.
   End WithRec.
 
@@ -183,6 +232,35 @@ Section DocRead.
             match doc_to_kwargs rec c ku d with
             | Some kw => construct re_match e c kw
             | None => Raise TypeError
+            end
+        end
+    end.
+
+  (* a wrapper with several distinct readings somewhere in document d read for class cn (running out of fuel
+     counts as ambiguous: the checker declines) *)
+  Fixpoint doc_ambiguous (n : nat) (ku : bool) (cn : pystr) (d : pyval) : bool :=
+    match n with
+    | O => true
+    | S n' =>
+        match find_class e cn with
+        | None => true
+        | Some c =>
+            let rec := fun cn' d' => match spec_deser n' ku cn' d' with Ok x => Some x | Raise _ => None end in
+            let amb := ambiguous rec (doc_ambiguous n' ku) in
+            match d with
+            | PDict kv =>
+                existsb (fun p => match fst p with
+                                  | PStr k => match find_field (c_fields c) k with
+                                              | Some fd => amb (fd_field fd) (snd p)
+                                              | None => false
+                                              end
+                                  | _ => false
+                                  end) kv
+            | _ =>
+                match (if df_compact fl then compact_eligible c else None) with
+                | Some fd => amb (fd_field fd) d
+                | None => false
+                end
             end
         end
     end.
